@@ -1082,9 +1082,32 @@ impl BackupManager {
             }
         }
 
+        let min_age_seconds = policy.min_age_days * day;
+
+        // A retained incremental is only restorable together with its whole parent chain, so
+        // every ancestor of a backup that survives this pass (kept by a bucket, or protected by
+        // min_age_days) must survive as well.
+        let parents: HashMap<Uuid, Uuid> = backups
+            .iter()
+            .filter_map(|b| b.parent_id.map(|p| (b.id, p)))
+            .collect();
+        let mut pending: Vec<Uuid> = backups
+            .iter()
+            .filter(|b| {
+                to_keep.contains(&b.id) || now.saturating_sub(b.timestamp) < min_age_seconds
+            })
+            .map(|b| b.id)
+            .collect();
+        while let Some(id) = pending.pop() {
+            if let Some(parent_id) = parents.get(&id) {
+                if to_keep.insert(*parent_id) {
+                    pending.push(*parent_id);
+                }
+            }
+        }
+
         // Delete backups not in keep set, respecting min_age_days
         let mut deleted = Vec::new();
-        let min_age_seconds = policy.min_age_days * day;
 
         for backup in &backups {
             if !to_keep.contains(&backup.id) {
